@@ -166,18 +166,18 @@ def _cap_scenario(sid, func_cls_mod, cls, level, name, pre, spec_fn, pinned_fn=N
 H = "[0-9a-f]+::"
 # instruction level: the whole instruction without its address
 _cap_scenario("cap:inst:ref", "cg_inst", "PatternNodeCaptureGroupInstructionReference", G.INST, "&x", ["&x"],
-              lambda: H + cap(1, r"[^,|]+,(?:[^,|]*,)*[^,|]*") + r",\|", props=["C05", "C07"])
+              lambda: H + cap(1, r"[^,|]+,(?:[^,|]*,)*[^,|]*") + r",\|", props=["C05", "C07", "C11"])
 _cap_scenario("cap:inst:call", "cg_inst", "PatternNodeCaptureGroupInstructionCall", G.INST, "&x", ["&x"],
-              lambda: H + bref(1) + r",\|", props=["C05", "C07"], bref_level=G.INSTBODY)
+              lambda: H + bref(1) + r",\|", props=["C05", "C07", "C11"], bref_level=G.INSTBODY)
 _cap_scenario("cap:inst:call2", "cg_inst", "PatternNodeCaptureGroupInstructionCall", G.INST, "&x", ["&p", "&x"],
-              lambda: H + bref(2) + r",\|", props=["C05", "C07"], bref_level=G.INSTBODY)
+              lambda: H + bref(2) + r",\|", props=["C05", "C07", "C11"], bref_level=G.INSTBODY)
 # operand level: one whole non-empty operand
 _cap_scenario("cap:oper:ref", "cg_op", "PatternNodeCaptureGroupOperandReference", G.OPER, "&x", ["&x"],
-              lambda: cap(1, "[^,|]+") + ",", props=["C05", "C07"])
+              lambda: cap(1, "[^,|]+") + ",", props=["C05", "C07", "C11"])
 _cap_scenario("cap:oper:call", "cg_op", "PatternNodeCaptureGroupOperandCall", G.OPER, "&x", ["&x"],
-              lambda: bref(1) + ",", props=["C05", "C07"], bref_level=G.FIELD)
+              lambda: bref(1) + ",", props=["C05", "C07", "C11"], bref_level=G.FIELD)
 _cap_scenario("cap:oper:call2", "cg_op", "PatternNodeCaptureGroupOperandCall", G.OPER, "&x", ["&p", "&x"],
-              lambda: bref(2) + ",", props=["C05", "C07"], bref_level=G.FIELD)
+              lambda: bref(2) + ",", props=["C05", "C07", "C11"], bref_level=G.FIELD)
 # deref component
 _cap_scenario("cap:deref:ref", "deref", "PatternNodeDerefPropertyCaptureGroupReference", G.DEREF, "&x", ["&x"],
               lambda: cap(1, r"[^,|+*\]]+"), props=["C05", "C06"])
@@ -209,7 +209,7 @@ def _reg_scenarios():
                     # documented deviating behaviour: width suffix ignored, optional terminator
                     return "%?[re]?" + code_slice + ",?"
                 _cap_scenario(f"cap:reg:ref:{name}:{level}", "cg_reg", "PatternNodeCaptureGroupSpecialRegisterReference", level,
-                              name, [], spec_ref, pinned_ref, unit=False, props=["C05", "C07"])
+                              name, [], spec_ref, pinned_ref, unit=False, props=["C05", "C07", "C11"])
                 if suf is None:
                     continue
 
@@ -220,7 +220,7 @@ def _reg_scenarios():
                     return "%?" + table[suf].format(bref(1) + ",?") + ",?"
                 _cap_scenario(f"cap:reg:call:{name}:{level}", "cg_reg", "PatternNodeCaptureGroupRegisterCall", level,
                               name, [f"&{fam}"], spec_call, pinned_call, bref_level=G.DEREF if level == G.DEREF else G.FIELD,
-                              unit=False, props=["C05", "C07"])
+                              unit=False, props=["C05", "C07", "C11"])
 
 
 _reg_scenarios()
